@@ -159,7 +159,11 @@ class Env:
 
     def p_Option__unwrap_or_default(s, M, st, th, ci, a):
         if a[0].variant == 'Some': return s.ret(st, payload(a[0]))
-        return None
+        # None: T::default() for the T named in the call's generic arguments (Option::<T>::unwrap_or_default)
+        m = re.search(r'Option::<(.+)>::unwrap_or_default$', ci['text'])
+        if not m: return None
+        r = M.dispatch(st, th, f'<{m.group(1)} as Default>::default', [])
+        return [('push', st)] if r is None else [('raw', r)]
 
     def p_Option__take(s, M, st, th, ci, a):
         o = s.tgt(M, st, a[0]); M.write(st, a[0], NONE); return s.ret(st, o)
@@ -318,15 +322,40 @@ class Env:
         return [('raw', r)]
 
     # ----- conversions / misc
-    def t_Into__into(s, M, st, th, ci, a): return s.convert_into(M, st, th, ci, a[0])
+    def t_Into__into(s, M, st, th, ci, a):
+        r = s.convert_into(M, st, th, ci, a[0])
+        if r is not None: return r
+        # std's blanket impl: <S as Into<T>>::into(x) = <T as From<S>>::from(x); T's From impl may be one of the crate's own
+        m = re.match(r'^(?:std::convert::|core::convert::)?Into<(.+)>$', (ci.get('trait') or '').strip())
+        if m:
+            callee = f'<{m.group(1)} as From<{ci["selfty"]}>>::from'
+            fn = M.local_fn(callee, th.stack[-1].fn.crate if th.stack and th.stack[-1].kind == 'mir' else None)
+            if fn is not None:
+                M.push_mir(st, th, fn, list(a)); return [('push', st)]
+        return None
     def t_From__from(s, M, st, th, ci, a): return s.convert_into(M, st, th, ci, a[0])
     def convert_into(s, M, st, th, ci, v): return None
 
     def t_IntoFuture__into_future(s, M, st, th, ci, a): return s.ret(st, a[0])
+    SHIM_ITERS = ('Map', 'Filter', 'FilterMap', 'Chain', 'Flatten', 'FlatMap', 'Enumerate', 'Zip', 'Take', 'Skip', 'TakeWhile', 'SkipWhile',
+                  'Inspect', 'Cloned', 'Copied', 'Rev', 'Peekable')
+
+    def p_Option__iter(s, M, st, th, ci, a):
+        o = s.tgt(M, st, a[0])
+        return s.ret(st, Agg('IntoIter', [Agg('Vec', [a[0].field(('Some', 0))] if o.variant == 'Some' else [])]))
+    p_Option__iter_mut = p_Option__iter
+    def p_Result__iter(s, M, st, th, ci, a):
+        o = s.tgt(M, st, a[0])
+        return s.ret(st, Agg('IntoIter', [Agg('Vec', [a[0].field(('Ok', 0))] if o.variant == 'Ok' else [])]))
+
     def t_IntoIterator__into_iter(s, M, st, th, ci, a):
         v = a[0]
+        if isinstance(v, Agg) and v.ty in s.SHIM_ITERS: return s.ret(st, v)
+        if isinstance(v, Agg) and v.ty == 'Option': return s.ret(st, Agg('IntoIter', [Agg('Vec', [payload(v)] if v.variant == 'Some' else [])]))
         if isinstance(v, Ref):
             c = s.tgt(M, st, v)
+            if isinstance(c, Agg) and c.ty == 'Option': return s.ret(st, Agg('IntoIter', [Agg('Vec', [v.field(('Some', 0))] if c.variant == 'Some' else [])]))
+            if isinstance(c, Agg) and c.ty in s.SHIM_ITERS: return s.ret(st, v)        # &mut I is an iterator itself
             if isinstance(c, Agg) and c.ty in ('Vec', 'VecDeque', 'array'): return s.ret(st, Agg('SliceIter', [v, I(0)]))
         if isinstance(v, Agg) and v.ty in ('Vec', 'VecDeque', 'array'): return s.ret(st, Agg('IntoIter', [Agg('Vec', v.items())]))
         if isinstance(v, Agg) and v.ty in ('Drain', 'IntoIter', 'SliceIter', 'Range'): return s.ret(st, v)
@@ -343,8 +372,8 @@ class Env:
                 else: outs.append(('ret', st2, NONE))
             return outs
         if it.ty == 'SliceIter':
-            c = s.tgt(M, st, it.f[0]); i = it.f[1].v
-            if i >= len(c.f): return s.ret(st, NONE)
+            c = s.tgt(M, st, it.f[0]); i = it.f[1].v; back = it.f[2].v if 2 in it.f else 0
+            if i >= len(c.f) - back: return s.ret(st, NONE)
             M.write(st, a[0], it.with_field(1, I(i + 1)))
             return s.ret(st, some(it.f[0].field(i)))
         if it.ty in ('Drain', 'IntoIter'):
@@ -352,6 +381,29 @@ class Env:
             if not items: return s.ret(st, NONE)
             M.write(st, a[0], it.with_field(0, Agg('Vec', items[1:])))
             return s.ret(st, some(items[0]))
+        return None
+
+    def t_DoubleEndedIterator__next_back(s, M, st, th, ci, a):
+        it = s.tgt(M, st, a[0])
+        if not isinstance(it, Agg): return None
+        if it.ty == 'Range':
+            outs = []
+            for st2, more in M.fork_on(st, binop('Lt', it.f[0], it.f[1])):
+                if more:
+                    cur = M.deref(st2, a[0]); hi = binop('Sub', cur.f[1], I(1, width(cur.f[1])))
+                    M.write(st2, a[0], cur.with_field(1, hi)); outs.append(('ret', st2, some(hi)))
+                else: outs.append(('ret', st2, NONE))
+            return outs
+        if it.ty == 'SliceIter':
+            c = s.tgt(M, st, it.f[0]); i = it.f[1].v; back = it.f[2].v if 2 in it.f else 0
+            if i >= len(c.f) - back: return s.ret(st, NONE)
+            M.write(st, a[0], Agg('SliceIter', [it.f[0], it.f[1], I(back + 1)]))
+            return s.ret(st, some(it.f[0].field(len(c.f) - back - 1)))
+        if it.ty in ('Drain', 'IntoIter'):
+            items = it.f[0].items()
+            if not items: return s.ret(st, NONE)
+            M.write(st, a[0], it.with_field(0, Agg('Vec', items[:-1])))
+            return s.ret(st, some(items[-1]))
         return None
 
     def t_Iterator__collect(s, M, st, th, ci, a):
@@ -444,7 +496,15 @@ class Env:
             sg, (x, y) = r; return s.ret(st, binop(op, x, y, sg))
         return f
     t_PartialOrd__lt = _cmpop('Lt'); t_PartialOrd__le = _cmpop('Le'); t_PartialOrd__gt = _cmpop('Gt'); t_PartialOrd__ge = _cmpop('Ge')
-    t_PartialEq__eq = _cmpop('Eq'); t_PartialEq__ne = _cmpop('Ne')
+    t_PartialEq__eq = _cmpop('Eq')
+    def t_PartialEq__ne(s, M, st, th, ci, a):
+        r = s.t_PartialEq__eq(M, st, th, ci, a)          # worlds override eq for their string representation
+        if r is None:
+            # `ne` is a provided method: the negation of the type's own (derived or hand-written) `eq`
+            fn = M.local_fn(ci['text'].replace('>::ne', '>::eq'), th.stack[-1].fn.crate if th.stack and th.stack[-1].kind == 'mir' else None)
+            if fn is None: return None
+            M.push_k(th, 'after', 'not', None); M.push_mir(st, th, fn, list(a)); return [('push', st)]
+        return [(o[0], o[1], b_not(o[2])) + tuple(o[3:]) if o[0] == 'ret' else o for o in r]
     def p_Ordering__is_lt(s, M, st, th, ci, a): return s.ret(st, a[0].variant == 'Less')
     def p_Ordering__is_le(s, M, st, th, ci, a): return s.ret(st, a[0].variant != 'Greater')
     def p_Ordering__is_gt(s, M, st, th, ci, a): return s.ret(st, a[0].variant == 'Greater')
